@@ -310,7 +310,7 @@ def verify(ob, tracer=None):
                 elif v == z3.sat:
                     if refuted is None:
                         refuted = {"clause": cname, "inputs": _model_inputs(s.model(), r.vars, ob.mode),
-                                   "path": [list(d) for d in r.decisions][:50]}
+                                   "path": [[d[0], d[1] if isinstance(d[1], (bool, int)) else str(d[1])] for d in r.decisions][:50]}
                         raise _Stop   # one counterexample is enough
                 else:
                     if undecided is None:
